@@ -102,7 +102,7 @@ def is_z3(v):
 
 
 def is_sym(v):
-    return isinstance(v, (z3.ExprRef, Arr, Mat, Obj, Havoc, DF, Opt, TS, TD))
+    return isinstance(v, (z3.ExprRef, Arr, Mat, Obj, Havoc, DF, Opt, TS, TD, SymMap))
 
 
 def is_bool_like(v):
@@ -683,6 +683,57 @@ class Obj:
 
     def set(self, k, v):
         self.attrs[k] = v
+
+
+class SymMap:
+    """Python dict whose keys may be symbolic names (asset / node names): an association list; a lookup is an
+    ite chain over key equalities, the latest store for an equal key wins (Python dict semantics)."""
+
+    def __init__(self, items=None):
+        self.items = list(items or [])      # [(key, value)] in insertion order
+
+    def copy(self):
+        return SymMap(self.items)
+
+    def keys(self):
+        return [k for k, _ in self.items]
+
+    def __len__(self):
+        return len(self.items)
+
+    def _eqs(self, key, resolve=None):
+        out = []
+        for k, _ in self.items:
+            c = cmpop('Eq', key, k)
+            cb = c if isinstance(c, bool) else concrete_bool(c)
+            if cb is None and resolve is not None:
+                cb = resolve(to_bool(c))
+            out.append(cb if cb is not None else c)
+        return out
+
+    def has_key(self, key, resolve=None):
+        conds = self._eqs(key, resolve)
+        if any(c is True for c in conds):
+            return True
+        conds = [c for c in conds if c is not False]
+        if not conds:
+            return False
+        return z3.simplify(z3.Or(*[to_bool(c) for c in conds]))
+
+    def lookup(self, key, resolve=None):
+        conds = self._eqs(key, resolve)
+        out = None
+        for (k, v), c in zip(self.items, conds):
+            if c is False:
+                continue
+            if out is None or c is True:
+                out = v
+            else:
+                out = ite(c, v, out)
+        return out
+
+    def store(self, key, value):
+        self.items.append((key, value))
 
 
 class DF:
